@@ -36,7 +36,7 @@ ASSUMPTIONS = [
     "explicit eigenvectors are exact (bi)orthonormal eigenvectors of h_0 up to rounding; implicit energies are >= 1 away from explicit ones",
     "KPM tolerance: residual <= 50 * a * atol * (1 + |Y|) with a the half bandwidth, or a convergence RuntimeWarning",
 ]
-REQUIRED_CLASSES = {"all": ["mode=diagonal", "mode=direct", "mode=greens", "mode=kpm", "mode=operator", "operator-diagonal-index", "rhs=sparse", "rhs=sympy", "orientation=left",
+REQUIRED_CLASSES = {"all": ["mode=diagonal", "mode=direct", "mode=greens", "mode=kpm", "mode=operator", "operator-diagonal-index", "integer-energies", "rhs=sparse", "rhs=sympy", "orientation=left",
                             "orientation=right", "biorthogonal", "degenerate-explicit", "aux-vectors", "dtype=float32"]}
 
 
@@ -67,7 +67,8 @@ def _diagonal_case(draw):
     def ent():
         return [draw(st.integers(-4, 4)), draw(st.integers(-4, 4)) if draw(st.booleans()) else 0]
     Y = [[ent() if draw(st.integers(0, 4)) else [0, 0] for _ in range(sizes[j])] for _ in range(sizes[i])]
-    return {"mode": "diagonal", "sizes": sizes, "eigs": eigs, "index": [i, j], "kind": kind, "Y": Y, "extra": draw(st.integers(0, 3))}
+    return {"mode": "diagonal", "sizes": sizes, "eigs": eigs, "index": [i, j], "kind": kind, "Y": Y, "extra": draw(st.integers(0, 3)),
+            "int_eigs": draw(st.integers(0, 2)) == 0}
 
 
 @st.composite
@@ -228,6 +229,8 @@ def _check_diagonal(case, out, wlist):
             arr = np.array([num(e) for e in vals])
             if not np.any(arr.imag):
                 arr = arr.real.copy()
+                if case.get("int_eigs") and not any(e[2] for v in case["eigs"] if v != "zero" for e in v):
+                    arr = arr.astype(np.int64)  # integer-dtype H_0 (e.g. np.diag([0, 1, 3]))
             eigs_lib.append(arr)
             eigs_ref.append([num(e) for e in vals])
     Y0 = np.array([[complex(e[0], e[1]) for e in row] for row in case["Y"]])
@@ -292,6 +295,8 @@ def _check_diagonal(case, out, wlist):
                         return
     if any(v == "zero" for v in case["eigs"]):
         out.labels.append("scalar-zero-block")
+    if any(getattr(a, "dtype", None) == np.int64 and a.shape for a in eigs_lib):
+        out.labels.append("integer-energies")
     cplx_e = any(e[1] for v in case["eigs"] if v != "zero" for e in v)
     if cplx_e:
         out.labels.append("complex-energies")
